@@ -36,47 +36,71 @@ PATH = [(NS, 'Namespace.__init__'),
         (JJ, 'DSDLCodeGenerator.filter_type_to_include_path')]
 
 
-# the method added by design_notes/C11_stem_collide_fix.patch; with it build_namespace_tree has its second pinned shape
-STEM_CHECK = (NS, '_NamespaceFactory.check_namespace_files_are_not_type_files')
+# the collision check of design_notes/C11_stem_collide_fix.patch is in /repo since 39680a3: part of the (single) tree shape
+TREE.append((NS, '_NamespaceFactory.check_namespace_files_are_not_type_files'))
+# Namespace.__init__ strops the folder through LanguageContext.filter_id_for_target, _make_ns_list through Language.filter_id:
+# the model's single `strop` relies on the former delegating to the latter with the id type unchanged
+PATH.append(('src/nunavut/lang/__init__.py', 'LanguageContext.filter_id_for_target'))
+# the helper added by design_notes/C11_stem_validate_fix.patch; with it Namespace.__init__ has its second pinned shape
+STEM_VALIDATE = (NS, '_checked_namespace_file_stem')
 
 
 def _dump(targets) -> str:
     return '\n'.join('## %s:%s\n%s' % (p, q, shape_pin.normalized_dump(p, q)) for p, q in targets) + '\n'
 
 
-def pin_c11tree():
-    """two pinned shapes: pins/c11tree.txt (no stem check) and pins/c11tree_stemfix.txt (build_namespace_tree calls
-    nsf.check_namespace_files_are_not_type_files() before returning; that method is pinned too).  Which one /repo has is the
-    regenerated fact pin_c11tree_stem_check the model (Namespace.build_checked) is instantiated with."""
-    out = os.path.join(gen.GEN_DIR, 'Gen_Pin_c11tree.v')
-    head = gen.HEADER % ', '.join('%s:%s' % t for t in TREE + [STEM_CHECK])
+def _two_shape_pin(name: str, targets, extra, flag_name: str, flag_doc: str):
+    """pins/<name>.txt = shape without `extra`, pins/<name>_stemfix.txt = shape with the patch that adds `extra`; which one /repo
+    has is emitted as the boolean `flag_name` the model is instantiated with; any third shape fails closed"""
+    out = os.path.join(gen.GEN_DIR, 'Gen_Pin_%s.v' % name)
+    head = gen.HEADER % ', '.join('%s:%s' % t for t in targets + [extra])
     try:
-        plain = open(os.path.join(shape_pin.PINS, 'c11tree.txt'), encoding='utf-8').read()
-        fixed = open(os.path.join(shape_pin.PINS, 'c11tree_stemfix.txt'), encoding='utf-8').read()
-        cur = _dump(TREE)
+        plain = open(os.path.join(shape_pin.PINS, name + '.txt'), encoding='utf-8').read()
+        fixed = open(os.path.join(shape_pin.PINS, name + '_stemfix.txt'), encoding='utf-8').read()
         flag = None
-        if cur == plain:
-            flag = False
+        if _dump(targets) == plain:
+            try:
+                shape_pin.normalized_dump(*extra)
+            except KeyError:
+                flag = False        # the old shape, and the helper does not exist
         else:
             try:
-                if _dump(TREE + [STEM_CHECK]) == fixed:
+                if _dump(targets + [extra]) == fixed:
                     flag = True
             except KeyError:
                 pass
     except (OSError, KeyError, SyntaxError, AssertionError) as ex:
         gen.write_if_changed(out, head + '(* shape pin failed closed: %r *)\n' % (ex,))
-        return False, 'shape pin c11tree failed closed: %r' % (ex,)
+        return False, 'shape pin %s failed closed: %r' % (name, ex)
     if flag is None:
         gen.write_if_changed(out, head + '(* shape of the pinned function(s) changed: the hand model is no longer known to describe the code *)\n')
-        return False, 'shape pin c11tree: the code has neither of the two shapes the hand model was written for'
+        return False, 'shape pin %s: the code has neither of the two shapes the hand model was written for' % name
+    gen.write_if_changed(out, head + 'Definition pin_%s_ok : bool := true.\n(* %s *)\nDefinition %s : bool := %s.\n'
+                         % (name, flag_doc, flag_name, 'true' if flag else 'false'))
+    return True, 'ok (%s = %s)' % (flag_name, flag)
+
+
+def pin_c11tree():
+    out = os.path.join(gen.GEN_DIR, 'Gen_Pin_c11tree.v')
+    head = gen.HEADER % ', '.join('%s:%s' % t for t in TREE)
+    try:
+        same = _dump(TREE) == open(os.path.join(shape_pin.PINS, 'c11tree.txt'), encoding='utf-8').read()
+    except (OSError, KeyError, SyntaxError, AssertionError) as ex:
+        gen.write_if_changed(out, head + '(* shape pin failed closed: %r *)\n' % (ex,))
+        return False, 'shape pin c11tree failed closed: %r' % (ex,)
+    if not same:
+        gen.write_if_changed(out, head + '(* shape of the pinned function(s) changed: the hand model is no longer known to describe the code *)\n')
+        return False, 'shape pin c11tree: the code no longer has the shape the hand model was written for'
     gen.write_if_changed(out, head + 'Definition pin_c11tree_ok : bool := true.\n'
-                         '(* does build_namespace_tree refuse a namespace file that is also a type file (C11_stem_collide_fix.patch)? *)\n'
-                         'Definition pin_c11tree_stem_check : bool := %s.\n' % ('true' if flag else 'false'))
-    return True, 'ok (stem check %s)' % ('present' if flag else 'absent')
+                         '(* part of the pinned shape: build_namespace_tree calls nsf.check_namespace_files_are_not_type_files() (fix 39680a3) *)\n'
+                         'Definition pin_c11tree_stem_check : bool := true.\n')
+    return True, 'ok'
 
 
 def pin_c11path():
-    return shape_pin.check_pin('c11path', PATH)
+    return _two_shape_pin('c11path', PATH, STEM_VALIDATE, 'pin_c11path_stem_validated',
+                          'does Namespace.__init__ pass the namespace file stem through _checked_namespace_file_stem '
+                          '(design_notes/C11_stem_validate_fix.patch)?')
 
 
 # the loop that writes one file per yielded output path (model: Namespace.c11_targets)
